@@ -48,7 +48,11 @@ WsJsons == { V("json", n, WsObjText, r, "obj", ObjM, ObjText) : n \in {"a", NONE
       \cup { V("json", "b", "\n [ 1 , 2 ]\n", r, "arr", <<>>, "[1,2]") : r \in {0, 1} }
 \* probes: tried in every reachable state (one implementation test each) but not used to reach further states -
 \* the white-space texts lead where the compact ones lead, the sets on merged names would only multiply the states
-Probes == {[k |-> "set", v |-> v] : v \in OnMerged \cup WsJsons}
+\* text whose strings carry the escape \u0000: as built it is refused like malformed text (the C-string getters could
+\* not hand such a value back); a set that TAKES it and a get that returns less than was stored breaks the map
+NulJsons == { V("json", n, "{\"z\":\"ab\\u0000cd\",\"a\":1}", r, "malformed", <<>>, NONE) : n \in {NONE, ""}, r \in {0, 1} }
+            \cup { V("json", "a", "{\"z\":\"\\u0000head\"}", r, "malformed", <<>>, NONE) : r \in {0, 1} }
+Probes == {[k |-> "set", v |-> v] : v \in OnMerged \cup WsJsons \cup NulJsons}
 FullAlphabet == {[k |-> "set", v |-> v] : v \in Scalars \cup Jsons}
            \cup {[k |-> "get", v |-> v] : v \in Gets} \cup {[k |-> "del", v |-> v] : v \in Dels}
 SmallAlphabet == {[k |-> "set", v |-> v] : v \in
